@@ -550,4 +550,53 @@ theorem lxor_ofNat {x y : Int} (hx : 0 ≤ x) (hy : 0 ≤ y) : Spec.Poly.lxor x 
   obtain ⟨n, rfl⟩ := Int.eq_ofNat_of_zero_le hy
   rfl
 
+
+/-! ### equality, histories -/
+
+theorem sub_eq_zero_iff {k : Nat} {x y : Int} (hx : k = 0 ∨ (0 ≤ x ∧ x < (2:Int)^k)) (hy : k = 0 ∨ (0 ≤ y ∧ y < (2:Int)^k)) :
+    red k (x - y) = 0 ↔ x = y := by
+  unfold red
+  split
+  · omega
+  · rename_i hk
+    rcases hx with hx | hx
+    · exact absurd hx hk
+    rcases hy with hy | hy
+    · exact absurd hy hk
+    constructor
+    · intro h
+      have hd := Int.dvd_of_emod_eq_zero h
+      obtain ⟨c, hc⟩ := hd
+      have hp : (0:Int) < (2:Int)^k := Int.pow_pos (by decide)
+      have : c = 0 := by
+        by_cases h0 : c = 0
+        · exact h0
+        · exfalso
+          rcases Int.lt_or_gt_of_ne h0 with hneg | hpos
+          · have : (2:Int)^k * c ≤ (2:Int)^k * (-1) := Int.mul_le_mul_of_nonneg_left (by omega) (Int.le_of_lt hp)
+            omega
+          · have : (2:Int)^k * 1 ≤ (2:Int)^k * c := Int.mul_le_mul_of_nonneg_left (by omega) (Int.le_of_lt hp)
+            omega
+      rw [this] at hc; omega
+    · intro h; rw [h]; simp
+
+theorem setInt_size {a r : Poly} {i v : Int} (h : a.setInt i v = .ok r) : r.size = a.size ∧ r.dim = a.dim := by
+  simp only [setInt] at h
+  split at h
+  · cases h; exact ⟨rfl, by simp [dim]⟩
+  · cases h
+
+theorem setMany_size : ∀ (idx vals : List Int) {a r : Poly}, a.setMany idx vals = .ok r → r.size = a.size ∧ r.dim = a.dim
+  | [], vals, a, r, h => by rw [setMany_nil_left] at h; cases h; exact ⟨rfl, rfl⟩
+  | j :: js, [], a, r, h => by rw [setMany_nil_right] at h; cases h; exact ⟨rfl, rfl⟩
+  | j :: js, v :: vs, a, r, h => by
+    rw [setMany_cons] at h
+    cases h1 : a.setInt j v with
+    | error m => rw [h1] at h; cases h
+    | ok a' =>
+      rw [h1] at h
+      have h2 := setMany_size js vs h
+      have h3 := setInt_size h1
+      exact ⟨h2.1.trans h3.1, h2.2.trans h3.2⟩
+
 end Proofs.PolyL
